@@ -22,7 +22,7 @@ KINDS = ["full_case", "short", "supra", "id"]
 class H(c06.H):
     def __init__(self, params):
         params = dict(params)
-        params["kinds"] = KINDS
+        params["kinds"] = params.get("kinds5") or KINDS
         params["prefixes"] = False
         params["edition_guess"] = False
         params["comma_pages"] = False  # the scenario's cases have plain numeric first pages
@@ -183,11 +183,20 @@ def concrete_oracle(cs, w):
 def check(rep):
     quick = rep.tier == "quick"
     L = 4 if quick else 5
-    rep.bounds.append(f"scenario lists of {L} citations over {KINDS}: cases with pairwise non-overlapping party names, each cited in full once or repeatedly; short/supra references written to an intended earlier case; id. with no / numeric / non-numeric pin cite; pages and pin cites unbounded integers")
+    rep.bounds.append(f"scenario lists of 4 citations over {KINDS}" + ("" if quick else " and of 5 citations over ['full_case', 'short', 'id']") + ": cases with pairwise non-overlapping party names, each cited in full once or repeatedly; short/supra references written to an intended earlier case; id. with no / numeric / non-numeric pin cite; pages and pin cites unbounded integers")
     rep.outside += ["that get_citations produces these citation objects from running text (extraction half of C05; see C01/C02/C17)", f"more than {L} citations; party names with punctuation (strip_punct identity)"]
     rep.stubs += ["hash_sha256 injective", "strip_punct identity", "re.match on the pin cite by contract"]
-    agg = common.explore_split("vf.harness.c05", {"L": L}, depth=3 if quick else 4, timeout=6 * 3600)
+    agg = common.explore_split("vf.harness.c05", {"L": 4}, depth=3 if quick else 4, timeout=6 * 3600)
     rep.merge_explore("scenario_resolution", agg)
+    if not quick:
+        # all four kinds at length 5 took 99 minutes (measured); the thorough tier adds length 5 without supra
+        agg5 = common.explore_split("vf.harness.c05", {"L": 5, "kinds5": ["full_case", "short", "id"]}, depth=4, timeout=6 * 3600)
+        rep.merge_explore("scenario_resolution_5", agg5)
+        for k, v in agg5["verdicts"].items():
+            agg["verdicts"][k] = agg["verdicts"].get(k, 0) + v
+        agg["findings"] = agg["findings"] + agg5["findings"]
+        agg["paths"] += agg5["paths"]
+        agg["errors"] = agg["errors"] + agg5["errors"]
     n_ob = sum(agg["verdicts"].values())
     n_ok = sum(v for k, v in agg["verdicts"].items() if k.endswith(":valid"))
     rep.oblige(n_ok)
